@@ -6,7 +6,7 @@
    The schema is arbitrary (well formed or not): the statements hold in particular for the 79 generated models.
    What a proof cannot show here — heap growth and run time of the real Go code — is measured by the check on the
    implementation (allocation per call, address-space limit, watchdog). *)
-From Codec Require Import Schema Readers Model Spec GenSchemas Total TotalBr TotalWr.
+From Codec Require Import Schema Readers Model Spec GenSchemas Total TotalBr TotalWr Hand.
 Open Scope N_scope.
 
 (* any byte list, contiguous reader: a value or an error, never a panic; the model's own fuel (nesting depth =
@@ -33,6 +33,19 @@ Theorem parse_total_wire : forall d sc mi ic r, p_RI r -> (p_rem r < d)%nat ->
   match wparse d sc mi ic r with Ok _ => True | Err e => e <> E_FUEL | Panic _ => False end.
 Proof. exact wparse_total. Qed.
 Print Assumptions parse_total_wire.
+
+(* the hand-written decoders of std/encoding: NameFromBytes, ComponentFromBytes (ReadComponent), ReadName through both
+   readers (loop ends within remaining bytes + 1 iterations: HFuel unreachable); ParseNat is `Base.VarNum.nat_dec`, a
+   total function of the length.  (ReadPacket / ReadData / ReadInterest post-check the value of the generated Packet
+   parser with length-guarded indexing only; their totality is decode_total / decode_wire_total of that parser.) *)
+Theorem handwritten_total :
+  (forall b : bytes, match name_from_bytes b with Ok _ => True | Err e => e <> E_FUEL | Panic _ => False end) /\
+  (forall b : bytes, match comp_from_bytes b with Ok _ => True | Err e => e <> E_FUEL | Panic _ => False end) /\
+  (forall r : br, match b_read_name r with HOk _ _ | HEof _ | HErr _ => True | HPanic _ => False | HFuel => False end) /\
+  (forall r : preader, p_RI r ->
+     match w_read_name r with HOk _ _ | HEof _ | HErr _ => True | HPanic _ => False | HFuel => False end).
+Proof. exact (conj name_from_bytes_total (conj comp_from_bytes_total (conj b_read_name_total w_read_name_total))). Qed.
+Print Assumptions handwritten_total.
 
 (* non-vacuity / regression: inputs that crashed, hung or exhausted the pinned code are plainly rejected *)
 Example c04_example :
